@@ -176,7 +176,7 @@ FS_PREFIXES = ("shutil.", "tempfile.", "pathlib.")
 ALLOWED = {
     (ARCH, "_extract_from_7z_optimized"): {"tempfile.TemporaryDirectory"},
     (ARCH, "_process_7z_files_sequential"): {"os.path.exists", "open"},
-    (SEVEN, "SevenZipReader.extractall"): {"os.makedirs"},
+    (SEVEN, "SevenZipReader.extractall"): {"os.makedirs", "open"},       # confined by policy#writes-only-to-_safe_join-results
     (SEVEN, "SevenZipReader._extract_files_from_folder"): {"open"},
     (SEVEN, "_mkdirs"): {"os.makedirs"},
 }
@@ -312,38 +312,44 @@ def policy(repo, tier):
     obls.append(ground_obligation("C09/archive_extractor.py::_extract_from_7z_optimized/typestate#temp-dir-is-a-with-block-enclosing-all-uses", ok, why, ARCH))
     # P6: sevenzip writes only to paths returned by _safe_join (or their dirname), under the directory it was given
     sv = mods[SEVEN]
-    f = sv.functions.get("SevenZipReader._extract_files_from_folder")
-    ok, why = False, ["function missing"]
-    if f is not None:
-        why = []
-        safe_vars = set()
-        for n in ast.walk(f):
-            if isinstance(n, ast.Assign) and isinstance(n.value, ast.Call) and len(n.targets) == 1 and isinstance(n.targets[0], ast.Name):
-                d = dotted(n.value.func)
-                if d == "_safe_join" and n.value.args and ast.unparse(n.value.args[0]) == "base_path":
-                    safe_vars.add(n.targets[0].id)
-        changed = True
-        while changed:
-            changed = False
+    # every path handed to open / _mkdirs / os.makedirs in the 7z reader is the extraction base itself or a _safe_join(base, ...) result
+    # (or its dirname); the base is the private temporary directory by the with-block obligation above
+    for q, base_param, min_sinks in (("SevenZipReader._extract_files_from_folder", "base_path", 3), ("SevenZipReader.extractall", "path", 1)):
+        f = sv.functions.get(q)
+        ok, why = False, ["function missing"]
+        if f is not None:
+            why = []
+            safe_vars = {base_param}
             for n in ast.walk(f):
                 if isinstance(n, ast.Assign) and isinstance(n.value, ast.Call) and len(n.targets) == 1 and isinstance(n.targets[0], ast.Name):
-                    if canonical(sv, n.value) == "os.path.dirname" and n.value.args and ast.unparse(n.value.args[0]) in safe_vars \
-                            and n.targets[0].id not in safe_vars:
+                    d = dotted(n.value.func)
+                    if d == "_safe_join" and n.value.args and ast.unparse(n.value.args[0]) == base_param:
                         safe_vars.add(n.targets[0].id)
-                        changed = True
-        for n in ast.walk(f):
-            if isinstance(n, ast.Assign):
-                for t in n.targets:
-                    if isinstance(t, ast.Name) and t.id in safe_vars and not (isinstance(n.value, ast.Call) and (dotted(n.value.func) == "_safe_join" or canonical(sv, n.value) == "os.path.dirname")):
-                        why.append(f"line {n.lineno}: {t.id} reassigned from something else")
-        sinks = [n for n in ast.walk(f) if isinstance(n, ast.Call) and dotted(n.func) in ("open", "_mkdirs", "os.makedirs")]
-        for s_ in sinks:
-            a0 = ast.unparse(s_.args[0]) if s_.args else ""
-            if a0 not in safe_vars:
-                why.append(f"line {s_.lineno}: {dotted(s_.func)}({a0}) not a _safe_join result")
-        ok = not why and len(sinks) >= 3
-        fns.append(dict(sv.fn_info("SevenZipReader._extract_files_from_folder"), obligations=1))
-    obls.append(ground_obligation("C09/sevenzip.py::SevenZipReader._extract_files_from_folder/policy#writes-only-to-_safe_join-results", ok, "; ".join(why), SEVEN))
+            changed = True
+            while changed:
+                changed = False
+                for n in ast.walk(f):
+                    if isinstance(n, ast.Assign) and isinstance(n.value, ast.Call) and len(n.targets) == 1 and isinstance(n.targets[0], ast.Name):
+                        if canonical(sv, n.value) == "os.path.dirname" and n.value.args and ast.unparse(n.value.args[0]) in safe_vars \
+                                and n.targets[0].id not in safe_vars:
+                            safe_vars.add(n.targets[0].id)
+                            changed = True
+            for n in ast.walk(f):
+                if isinstance(n, (ast.Assign, ast.AugAssign, ast.AnnAssign)):
+                    tg = n.targets if isinstance(n, ast.Assign) else [n.target]
+                    for t in tg:
+                        if isinstance(t, ast.Name) and t.id in safe_vars and not (isinstance(n, ast.Assign) and isinstance(n.value, ast.Call) and (
+                                dotted(n.value.func) == "_safe_join" and n.value.args and ast.unparse(n.value.args[0]) == base_param
+                                or canonical(sv, n.value) == "os.path.dirname")):
+                            why.append(f"line {n.lineno}: {t.id} reassigned from something else")
+            sinks = [n for n in ast.walk(f) if isinstance(n, ast.Call) and dotted(n.func) in ("open", "_mkdirs", "os.makedirs")]
+            for s_ in sinks:
+                a0 = ast.unparse(s_.args[0]) if s_.args else ""
+                if a0 not in safe_vars:
+                    why.append(f"line {s_.lineno}: {dotted(s_.func)}({a0}) not the extraction base or a _safe_join result")
+            ok = not why and len(sinks) >= min_sinks
+            fns.append(dict(sv.fn_info(q), obligations=1))
+        obls.append(ground_obligation(f"C09/sevenzip.py::{q}/policy#writes-only-to-_safe_join-results", ok, "; ".join(why), SEVEN))
     return {"obligations": obls, "functions": fns}
 
 
